@@ -208,6 +208,9 @@ func c06Directed() []C06Case {
 	add("application/json; charset=utf-8", `{"name":"n"}`, nil)
 	add("application/json;charset=utf-8", `{"name":1}`, nil)
 	add("application/json ; charset=utf-8", `{"name":"n"}`, nil)
+	add("application/json; charset=utf-8; profile=demo", `{"name":"n"}`, nil)
+	add("application/json; charset=utf-8; profile=demo", `{"name":1}`, nil)
+	add("text/plain; a=1; b=2", "abcdefgh", nil)
 	add("text/plain", "short", nil)
 	add("text/plain", "too long", nil)
 	add("text/plain; charset=utf-8", "abc", nil)
